@@ -169,13 +169,60 @@ func planSites() []string {
 	return planSitesOnce.sites
 }
 
+// stoppedMotif: the victim is stopped (stop_if on a quick step) at a generated moment of its life -
+// while it waits for its deployment input, during its deployment, while it waits to be enabled or
+// while it runs. It then ends in closed.result (or, when running, in whatever it answers to the cancel
+// signal); every other stage output it can no longer produce has to be declared impossible, so a
+// follower that needs one of those never starts and the run ends promptly although a bystander
+// never ends. The reference does not model stop conditions; the expectation is stated here.
+func stoppedMotif(rt *rapid.T) *vcase.Case {
+	mk := func(id, op string) *vcase.Step {
+		return &vcase.Step{ID: id, Kind: "plugin", Op: op, Input: vcase.MapVal([]string{"key"}, []*vcase.Val{vcase.LitVal(vcase.StrLit(id))})}
+	}
+	out := func(step, stage, output string, path ...string) *vcase.Val {
+		return vcase.ExprVal(&vcase.Expr{K: "out", Step: step, Stage: stage, Output: output, Path: path})
+	}
+	v, y, f, b := mk("sv", "op"), mk("sy", "op"), mk("sf", "op"), mk("sb", "op")
+	v.StopIf = out("sy", "outputs", "success")
+	c := &vcase.Case{Prop: "C01", Profile: "motif:victim-stopped", Subs: map[string]*vcase.Program{}, InputDoc: map[string]any{}}
+	c.Script.Steps = map[string]vplug.Behaviour{"sv": {Outcome: "never", OnCancel: "alt"}, "sy": {Outcome: "success", DelayMs: 40}, "sf": {Outcome: "success"}, "sb": {Outcome: "never", OnCancel: "alt"}}
+	c.Script.Deploys = map[string]vplug.DeployBehaviour{}
+	when := rapid.SampledFrom([]string{"waiting-for-deploy-input", "deploying", "deploying-uninterruptible", "waiting-to-be-enabled", "running"}).Draw(rt, "sm.when")
+	slow := mk("sz", "op") // a step that ends long after the stop: sources for inputs that arrive too late
+	c.Script.Steps["sz"] = vplug.Behaviour{Outcome: "success", DelayMs: 400}
+	switch when {
+	case "waiting-for-deploy-input":
+		v.DeployTag = out("sz", "outputs", "success", "s")
+	case "deploying":
+		// the deployer honours its context: the interrupted deployment fails (deploy_failed.error is produced)
+		c.Script.Deploys["vp://sv"] = vplug.DeployBehaviour{DelayMs: 300}
+	case "deploying-uninterruptible":
+		c.Script.Deploys["vp://sv"] = vplug.DeployBehaviour{DelayMs: 300, IgnoreCancel: true}
+	case "waiting-to-be-enabled":
+		v.Enabled = out("sz", "outputs", "success", "ok")
+	}
+	type so struct{ stage, output string }
+	pick := rapid.SampledFrom([]so{{"outputs", "success"}, {"outputs", "error"}, {"starting", "started"}, {"disabled", "output"},
+		{"crashed", "error"}, {"deploy_failed", "error"}}).Draw(rt, "sm.dep")
+	f.WaitFor = out("sv", pick.stage, pick.output)
+	c.Main = &vcase.Program{Steps: []*vcase.Step{v, y, f, b, slow},
+		Outputs: []*vcase.Output{{ID: "success", Val: vcase.MapVal([]string{"r"}, []*vcase.Val{out("sf", "outputs", "success", "s")})}}}
+	c.Labels = []string{"motif:victim-stopped", "stopped-motif:" + when, "stopped-motif:follower-needs-" + pick.stage + "." + pick.output}
+	if (when == "running" && pick.stage == "starting") || (when == "deploying" && pick.stage == "deploy_failed") {
+		c.Labels = append(c.Labels, "stopped-motif:follower-may-run")
+	}
+	return c
+}
+
 func TestC01(t *testing.T) {
 	p := liveProfile()
 	runProperty(t, "C01",
 		func(rt *rapid.T) *vcase.Case {
 			var c *vcase.Case
-			if rapid.IntRange(0, 7).Draw(rt, "unreachmotif?") == 0 {
+			if k := rapid.IntRange(0, 15).Draw(rt, "motif?"); k <= 1 {
 				c = unreachMotif(rt)
+			} else if k == 2 {
+				c = stoppedMotif(rt)
 			} else {
 				c = vcase.GenCase(rt, p, "C01")
 			}
@@ -196,6 +243,35 @@ func TestC01(t *testing.T) {
 			return c
 		},
 		func(st *Stats, c *vcase.Case) string {
+			if c.Profile == "motif:victim-stopped" {
+				ans := RunCase(c.Request("run"))
+				if ans.PrepareErr != "" {
+					return "generated program rejected by Prepare (generator soundness): " + short(ans.PrepareErr, 400)
+				}
+				owner, detail := anomaly(ans)
+				st.Record(c, true, c.Labels)
+				if owner == "C01" {
+					if !ans.HangBlocked {
+						st.Label("inconclusive-hang-without-block-evidence")
+						return ""
+					}
+					return fmt.Sprintf("run did not return within %d ms although the stopped step can no longer produce what the follower needs and all engine goroutines are blocked (%s)", c.WatchdogMs, detail)
+				}
+				if owner != "" {
+					st.ForeignAnomaly(owner, c)
+					return ""
+				}
+				mayRun := false
+				for _, l := range c.Labels {
+					if l == "stopped-motif:follower-may-run" {
+						mayRun = true
+					}
+				}
+				if ans.Returned.Err == "" && !mayRun {
+					return fmt.Sprintf("the run returned output %q although the follower's dependency can never be produced by a stopped step", ans.Returned.OutputID)
+				}
+				return ""
+			}
 			m, tamed, k14 := tameNever(c)
 			if tamed > 0 {
 				st.Label("never-tamed")
